@@ -165,13 +165,15 @@ def gen_layered(rng):
     out = new()
     nodes[out]['params'] = [[f'p{i}', ['in', d]] for i, d in enumerate(sinks)]
     prog = {'nodes': nodes, 'order': order, 'input': inp, 'output': out, 'tags': []}
+    if rng.random() < 0.4:
+        gen.add_generics(prog, rng, 0.3)        # build_node() derivatives keep the mode of their base class
     return prog
 
 
 def depths(prog):
     d = {prog['input']: 0}
     for nid in prog['order']:
-        if nid == prog['input']:
+        if nid == prog['input'] or prog['nodes'][nid].get('generic_base'):
             continue
         ps = [m[1] for _, m in prog['nodes'][nid]['params']]
         d[nid] = 1 + max([d[p] for p in ps], default=0)
@@ -204,11 +206,11 @@ def _level(prog, built, case):
                 finished.add(r['node'])
             elif r['k'] in ('body_start', 'submit'):
                 started.add(r['node'])
-        unfinished = [n for n in prog['order'] if n not in finished]
+        unfinished = [n for n in dep if n not in finished]
         if not unfinished:
             return
         D = min(dep[n] for n in unfinished)
-        level = [n for n in prog['order'] if dep[n] == D]
+        level = [n for n in dep if dep[n] == D]
         audited['n'] += 1
         inflight = [n for n in level if n in started and n not in finished]
         audited['maxwidth'] = max(audited['maxwidth'], len(inflight))
